@@ -140,6 +140,12 @@ class MapEngine:
             if rng.random() < 0.35:
                 op["meta_override"] = {"spring constant":
                                        rng.choice([0.03, 0.11])}
+            elif rng.random() < 0.25:
+                # overrides whose value is zero are values like any other
+                op["meta_override"] = rng.choice(
+                    [{"position x": 0.0}, {"setpoint": 0.0},
+                     {"position x": 0.0, "position y": 0.0},
+                     {"duration": 0.0}])
             if rng.random() < 0.2:
                 # documented setting: do not restrict the modality
                 op["modality_none"] = True
